@@ -1611,7 +1611,7 @@ static uint64_t bufr_value2bits( BufrDescriptor *bd )
          break;
       case TYPE_CODETABLE :
       case TYPE_FLAGTABLE :
-         ival = bufr_value_get_int32( bd->value );
+         ival = bufr_value_get_int64( bd->value );
          if (ival < -1)
             {
             ival = -1;
@@ -1917,13 +1917,14 @@ static void bufr_put_desc_value ( BUFR_Message *bufr, BufrDescriptor *bd )
             sprintf( errmsg, _n("(%d bit) ", "(%d bits) ", bd->encoding.nbits), bd->encoding.nbits );
             bufr_print_debug( errmsg );
             }
-         if  (i32val < 0)
+         i64val = bufr_value_get_int64( bd->value ); /* a table of 32 bits or more has an INT64 value */
+         if  (i64val < 0)
             {
             ui64val = bufr_missing_ivalue( bd->encoding.nbits );
             }
          else
             {
-            ui64val = i32val;
+            ui64val = i64val;
             }
          bufr_putbits( bufr, ui64val, bd->encoding.nbits );
          break;
@@ -2137,7 +2138,7 @@ static int bufr_get_desc_value ( BUFR_Message *bufr, BufrDescriptor *bd )
             sprintf( errmsg, _n("IVAL=%llu (%d bit) ", "IVAL=%llu (%d bits) ", bd->encoding.nbits), (unsigned long long)ival, bd->encoding.nbits );
             bufr_print_debug( errmsg );
             }
-         bufr_value_set_int32( bd->value, ival );
+         bufr_value_set_int64( bd->value, (int64_t)ival );
          break;
       default :
          if (isdebug)
